@@ -16,11 +16,14 @@ def make_items(seed, n):
     items = []
     i = 0
     while len(items) < n:
-        st, el = gen_rich.gen_rich(seed * 6007 + i, loops=(i % 3 == 0), funcs=True)
+        st, el = gen_rich.gen_rich(seed * 6007 + i, loops=(i % 3 == 0), funcs=True, local_state=(i % 2 == 1))
         i += 1
         if max(fa.unfolded_size(el.flat)) > 300 or "(" not in fr.text(st):
             continue
-        items.append(engine.Item(len(items), el.flat, text=fr.text(st), entities=el.entities))
+        it = engine.Item(len(items), el.flat, text=fr.text(st), entities=el.entities, mems=el.mems or None)
+        # known finding S5: a memory declared in a function body is one cell shared by all call sites
+        it.s5 = bool(el.renamed_cells)
+        items.append(it)
     return items
 
 
@@ -28,7 +31,7 @@ def run(tier, seed, t0):
     return c01.run(tier, seed, t0, prop=PROP, n_quick=40, n_thorough=400, make_items=make_items,
                    props_file="Props/C01.v",
                    rule="random programs with 1-2 functions (Signal/int parameters, int<->Signal coercion at call "
-                        "sites, locals, nested use of results, calls feeding loops) validated for all inputs against "
+                        "sites, locals, local memory cells and locally placed lamps, nested use of results, calls feeding loops) validated for all inputs against "
                         "the inlined specification program; known-finding regions classified per blueprint")
 
 
